@@ -531,7 +531,7 @@ theorem compReplace_atomic (fuel : Nat) (w : W) (p old new : Nat) (hinv : Inv w.
               have hat := copyIo_atomic_soft (Cfg.repaired fuel) rfl w new old true hinv
               have hsh := copyIo_ok_shape (Cfg.repaired fuel) w new old true false
               simp only [Cfg.repaired] at hat hsh
-              generalize copyIo ⟨true, true, true, true, true, true, true, fuel⟩ w new old true false = r
+              generalize copyIo ⟨true, true, true, true, true, true, fuel⟩ w new old true false = r
                 at herr hat hsh ⊢
               obtain ⟨w1, e⟩ := r
               cases e with
@@ -1331,7 +1331,7 @@ theorem compReplace_ok_shape (fuel : Nat) (w : W) (p old new : Nat) (w' : W)
                 | true => simp at hc
                 | false => rfl
               simp only [Cfg.repaired] at hsh hfl
-              generalize copyIo ⟨true, true, true, true, true, true, true, fuel⟩ w new old true false = r
+              generalize copyIo ⟨true, true, true, true, true, true, fuel⟩ w new old true false = r
                 at h hsh hfl
               obtain ⟨w1, e⟩ := r
               cases e with
@@ -1366,19 +1366,35 @@ theorem ioPairs_cover (w : W) (me other : Nat) (h1 : w.t.kind me ≠ .workflow) 
   unfold ioPairs panels
   simp only [h1, h2, if_false]
   simp only [NodeIO.all, List.mem_append] at hoc
-  refine ⟨_, List.mem_flatMap.mpr ?_⟩
   rcases hoc with ((hoc | hoc) | hoc) | hoc
-  · exact ⟨((w.io me).inp, (w.io other).inp), by simp, List.mem_map.mpr ⟨oc, hoc, rfl⟩⟩
-  · exact ⟨((w.io me).out, (w.io other).out), by simp, List.mem_map.mpr ⟨oc, hoc, rfl⟩⟩
-  · exact ⟨((w.io me).sin, (w.io other).sin), by simp, List.mem_map.mpr ⟨oc, hoc, rfl⟩⟩
-  · exact ⟨((w.io me).sout, (w.io other).sout), by simp, List.mem_map.mpr ⟨oc, hoc, rfl⟩⟩
+  · exact ⟨findLab w (w.io me).inp (w.clab oc), List.mem_flatMap.mpr
+      ⟨((w.io me).inp, (w.io other).inp), by simp, List.mem_map.mpr ⟨oc, hoc, rfl⟩⟩⟩
+  · exact ⟨findLab w (w.io me).out (w.clab oc), List.mem_flatMap.mpr
+      ⟨((w.io me).out, (w.io other).out), by simp, List.mem_map.mpr ⟨oc, hoc, rfl⟩⟩⟩
+  · exact ⟨findLab w (w.io me).sin (w.clab oc), List.mem_flatMap.mpr
+      ⟨((w.io me).sin, (w.io other).sin), by simp, List.mem_map.mpr ⟨oc, hoc, rfl⟩⟩⟩
+  · exact ⟨findLab w (w.io me).sout (w.clab oc), List.mem_flatMap.mpr
+      ⟨((w.io me).sout, (w.io other).sout), by simp, List.mem_map.mpr ⟨oc, hoc, rfl⟩⟩⟩
+
+theorem filterMap_congr' {α β} (f g : α → Option β) : ∀ (l : List α), (∀ a ∈ l, f a = g a) →
+    l.filterMap f = l.filterMap g := by
+  intro l
+  induction l with
+  | nil => intro _; rfl
+  | cons a l ih =>
+    intro h
+    simp only [List.filterMap_cons, h a (List.mem_cons_self ..)]
+    rw [ih (fun b hb => h b (List.mem_cons_of_mem _ hb))]
+
+theorem updF_updF' {α} (f : Nat → α) (a : Nat) (x y : α) : updF (updF f a x) a y = updF f a y := by
+  funext z; by_cases h : z = a <;> simp [updF, h]
 
 theorem standIns_congr (w : W) (g1 : G) (f : Nat → Option Nat) (new old : Nat)
     (hsame : ∀ oc, oc ∈ (w.io old).all → g1.conns oc = w.g.conns oc) :
     standIns { w with g := g1, val := f } new old = standIns w new old := by
   unfold standIns
   show List.filterMap _ (ioPairs w new old) = _
-  apply List.filterMap_congr
+  apply filterMap_congr'
   intro mo hmo
   have := (mem_ioPairs w new old mo.1 mo.2 hmo).1
   show (if (g1.conns mo.2).isEmpty then none else _) = _
@@ -1460,7 +1476,7 @@ theorem tAfter_facts (t : Tree.Tree) (p old new : Nat) (hpo : t.parent old = som
     subst hs
     unfold tAfter
     split <;>
-      simp [adopt, swapLabels, Tree.removeCore0, updF, hne, hne', *]
+      simp [adopt, swapLabels, Tree.removeCore0, updF_updF', *]
   obtain ⟨hl, hp, hc, hs⟩ := key _ rfl
   refine ⟨?_, ?_, ?_, ?_, ?_, ?_, ?_, ?_, ?_, ?_, ?_⟩
   · rw [hl]; simp [updF, hne']
@@ -1544,5 +1560,142 @@ theorem compReplace_inherits (fuel : Nat) (w : W) (p old new : Nat) (w' : W)
     exact seat_neighbour hctx hinv q hqo hqn
   · intro c hc
     exact seat_old hctx c hc
+
+/-! ## `Channel.copy_connections` -/
+
+theorem disconnect_logged {g0 g : G} {a : Nat} {done : List Nat} (hs : SameStatic g0 g)
+    (hl : Logged g0 g (done.map fun b => (a, b))) (h : Inv g) : disconnect g a done = g0 := by
+  apply G.eq_of_static (hs.trans (disconnect_static g a done))
+  intro x
+  rw [disconnect_conns g a done h x, hl x]
+
+theorem copyChanAux_atomic (g0 : G) (a : Nat) : ∀ (cs : List Nat) (g : G) (done : List Nat),
+    Inv g → SameStatic g0 g → Logged g0 g (done.map fun b => (a, b)) →
+    (copyChanAux true g a cs done).2 ≠ .ok → (copyChanAux true g a cs done).1 = g0 := by
+  intro cs
+  induction cs with
+  | nil => intro g done _ _ _ h; exact absurd rfl h
+  | cons c cs ih =>
+    intro g done hi hs hl herr
+    unfold copyChanAux at herr ⊢
+    dsimp only at herr ⊢
+    rcases connect1_cases g a c with ⟨hin, he⟩ | ⟨hnin, hc, he⟩ | ⟨hg, hne⟩
+    · rw [he] at herr ⊢
+      dsimp only at herr ⊢
+      simp only [hin, decide_true, Bool.and_self, if_true] at herr ⊢
+      exact ih g done hi hs hl herr
+    · rw [he] at herr ⊢
+      dsimp only at herr ⊢
+      simp only [hnin, decide_false, Bool.and_false, Bool.false_eq_true, if_false] at herr ⊢
+      have hi' := connect1_inv g a c hi
+      have hst := connect1_static g a c
+      rw [he] at hi' hst
+      refine ih _ _ hi' (hs.trans hst) ?_ herr
+      rw [List.map_append]
+      exact hl.step hi hnin hc
+    · generalize hr : connect1 g a c = r at hg hne herr ⊢
+      obtain ⟨g', res⟩ := r
+      simp only at hg hne
+      subst hg
+      cases res with
+      | ok => exact absurd rfl hne
+      | typeErr => exact disconnect_logged hs hl hi
+      | connErr => exact disconnect_logged hs hl hi
+
+theorem copyChan_atomic (cfg : Cfg) (honly : cfg.onlyNewUndo = true) (w : W) (a b : Nat) (hinv : Inv w.g)
+    (herr : (copyChan cfg w a b).2 ≠ .ok) : (copyChan cfg w a b).1 = w := by
+  unfold copyChan at herr ⊢
+  rw [honly] at herr ⊢
+  have := copyChanAux_atomic w.g a (w.g.conns b) w.g [] hinv (.refl _) (by simpa using Logged.refl w.g)
+  generalize copyChanAux true w.g a (w.g.conns b) [] = r at herr this ⊢
+  obtain ⟨g', res⟩ := r
+  cases res with
+  | ok => exact absurd rfl herr
+  | typeErr =>
+    have h2 : g' = w.g := this (by simp)
+    dsimp only; rw [h2]
+  | connErr =>
+    have h2 : g' = w.g := this (by simp)
+    dsimp only; rw [h2]
+
+/-! ## `copy_io` in every variant: nothing but the values can differ after a failure -/
+
+/-- whatever the variant and the flags: if the log of the connection loop only holds
+connections that were not there before (as it always does with the repaired log), a failed
+`copy_io` restores everything except possibly values of the receiving object -/
+theorem copyIo_failed_valOnly (cfg : Cfg) (w : W) (me other : Nat) (ch vh : Bool) (hinv : Inv w.g)
+    (hlog : copyPairs cfg.onlyNewUndo w.g ch (ioPairs w me other) [] = copyPairs true w.g ch (ioPairs w me other) [])
+    (herr : (copyIo cfg w me other ch vh).2 ≠ .ok) : ValOnly w (copyIo cfg w me other ch vh).1 := by
+  unfold copyIo at herr ⊢
+  rw [hlog] at herr ⊢
+  have hl := copyPairs_logged w.g ch (ioPairs w me other) hinv
+  generalize copyPairs true w.g ch (ioPairs w me other) [] = r at herr hl ⊢
+  obtain ⟨g', log, fl⟩ := r
+  cases fl with
+  | true =>
+    dsimp only at hl ⊢
+    rw [undo_logged hl.2.1 hl.2.2 hl.1]
+    exact .refl w
+  | false =>
+    dsimp only at herr hl ⊢
+    have hv := copyValues_valOnly cfg { w with g := g' } me other vh
+    generalize copyValues cfg { w with g := g' } me other vh = rv at herr hv ⊢
+    obtain ⟨w2, okv⟩ := rv
+    cases okv with
+    | true => exact absurd rfl herr
+    | false =>
+      dsimp only at hv ⊢
+      obtain ⟨f, hf⟩ := hv
+      subst hf
+      dsimp only
+      rw [undo_logged hl.2.1 hl.2.2 hl.1]
+      exact ⟨f, rfl⟩
+
+theorem copyIo_atomic_soft' (cfg : Cfg) (w : W) (me other : Nat) (ch : Bool) (hinv : Inv w.g)
+    (hlog : copyPairs cfg.onlyNewUndo w.g ch (ioPairs w me other) [] = copyPairs true w.g ch (ioPairs w me other) [])
+    (herr : (copyIo cfg w me other ch false).2 ≠ .ok) : (copyIo cfg w me other ch false).1 = w := by
+  unfold copyIo at herr ⊢
+  rw [hlog] at herr ⊢
+  have hl := copyPairs_logged w.g ch (ioPairs w me other) hinv
+  generalize copyPairs true w.g ch (ioPairs w me other) [] = r at herr hl ⊢
+  obtain ⟨g', log, fl⟩ := r
+  cases fl with
+  | true =>
+    dsimp only at hl ⊢
+    rw [undo_logged hl.2.1 hl.2.2 hl.1]
+  | false =>
+    exfalso
+    dsimp only at herr
+    have hs := copyValues_soft cfg { w with g := g' } me other
+    generalize copyValues cfg { w with g := g' } me other false = rv at herr hs
+    obtain ⟨w2, okv⟩ := rv
+    simp only at hs; subst hs
+    exact herr rfl
+
+/-! ## `Workflow.replace_child` -/
+
+/-- with all repairs in place a workflow-level replacement is all-or-nothing as long as the IO
+of the workflow can still be built afterwards (no renaming-map collision brought in by the
+replacement: known finding D7) -/
+theorem replace_atomic (fuel : Nat) (w : W) (p old new : Nat) (hinv : Inv w.g)
+    (hio : ∀ w1, compReplace (Cfg.repaired fuel) w p old new = (w1, .ok) → w.t.kind p = .workflow → wfIoOk w1 p = true)
+    (herr : (replace (Cfg.repaired fuel) w p old new).2 ≠ .ok) :
+    (replace (Cfg.repaired fuel) w p old new).1 = w := by
+  unfold replace at herr ⊢
+  split
+  · rename_i hk
+    rw [if_pos hk] at herr
+    have hat := compReplace_atomic fuel w p old new hinv
+    generalize hr : compReplace (Cfg.repaired fuel) w p old new = r at herr hat hio ⊢
+    obtain ⟨w1, e⟩ := r
+    cases e with
+    | ok =>
+      have := hio w1 rfl hk
+      simp only [this, if_true] at herr
+      exact absurd rfl herr
+    | _ => exact hat (by simp)
+  · rename_i hk
+    rw [if_neg hk] at herr
+    exact compReplace_atomic fuel w p old new hinv herr
 
 end PwVerif.Edit
